@@ -36,11 +36,14 @@ def _work(task):
     fmt_cls, key, sched_name = task
     img = _IMAGES[key]
     try:
-        model = M.StreamModel(_CTX, fmt_cls)
-        queries = sched_name.endswith('+queries')
-        outs = model.run(img, SCHED[sched_name.split('+')[0]],
-                         second_run=SECOND_RUN[0] and not queries,
-                         mid_safety=queries)
+        from ..core.loader import Budget
+        with Budget(int(os.environ.get('SA_TASK_BUDGET', '240')),
+                    'the run of %s on %r under %s' % task):
+            model = M.StreamModel(_CTX, fmt_cls)
+            queries = sched_name.endswith('+queries')
+            outs = model.run(img, SCHED[sched_name.split('+')[0]],
+                             second_run=SECOND_RUN[0] and not queries,
+                             mid_safety=queries)
     except AnalysisError as e:
         return task, {'failure': 'analysis: %s' % e}
     except Exception as e:    # pragma: no cover - reported as undecided
